@@ -189,7 +189,7 @@ type oInterp struct {
 	initDone map[*types.Package]bool
 	// symbolic: arithmetic on floats yields normal-form polynomials (ordersym.go) instead of ⊤
 	symbolic bool
-	maxLoop  int // iterations allowed per loop (default 64)
+	maxLoop  int  // iterations allowed per loop (default 64)
 	seqGo    bool // goroutines, channels and wait groups under one sequential schedule (ordergo.go)
 	pending  []goThunk
 	// valuation, when set, chooses the branch at comparisons the symbolic domain cannot decide; the
@@ -377,7 +377,62 @@ func (it *oInterp) Call(fn *types.Func, recv oval, args []oval, depth int) ([]ov
 			return nil, "fell off the end of " + fn.Name()
 		}
 	}
+	if depth == 0 {
+		// the driver's own call: a result that stands for "a callee could not be interpreted" is a
+		// run that could not be interpreted, whatever else came back with it
+		for _, r := range fr.results {
+			if why := poisonIn(r, map[*oStruct]bool{}, 0); why != "" {
+				return fr.results, why
+			}
+		}
+	}
 	return fr.results, ""
+}
+
+// poisonIn: the reason of the first ↯-marked unknown found anywhere inside v ("" when none).
+func poisonIn(v oval, seen map[*oStruct]bool, depth int) string {
+	if depth > 12 {
+		return ""
+	}
+	switch x := v.(type) {
+	case oTop:
+		if poisons(x.why) {
+			return x.why
+		}
+	case *oStruct:
+		if x == nil || seen[x] {
+			return ""
+		}
+		seen[x] = true
+		for _, f := range x.fields {
+			if w := poisonIn(f, seen, depth+1); w != "" {
+				return w
+			}
+		}
+	case oPtr:
+		return poisonIn(x.s, seen, depth+1)
+	case oIface:
+		if x.dyn != nil {
+			return poisonIn(x.dyn, seen, depth+1)
+		}
+	case oRef:
+		return poisonIn(x.load(), seen, depth+1)
+	case oSlice:
+		for i := 0; i < x.length() && i < 4096; i++ {
+			if w := poisonIn(x.at(i), seen, depth+1); w != "" {
+				return w
+			}
+		}
+	case oMap:
+		if x.vals != nil {
+			for i := 0; i < len(*x.vals) && i < 4096; i++ {
+				if w := poisonIn((*x.vals)[i], seen, depth+1); w != "" {
+					return w
+				}
+			}
+		}
+	}
+	return ""
 }
 
 func (fr *oFrame) abort(format string, a ...interface{}) oCtl {
@@ -1979,9 +2034,6 @@ func (fr *oFrame) call(call *ast.CallExpr) []oval {
 	if recv != nil && sig.Recv() != nil {
 		recv = embeddedRecv(recv, sig.Recv().Type())
 	}
-	if fr.it.p.Decl(f) == nil && fr.it.stub == nil {
-		return one(oTop{"call to " + f.FullName() + " (outside the repo)"})
-	}
 	var args []oval
 	ps := sig.Params()
 	// f(g()) with g returning several values
@@ -2565,6 +2617,7 @@ func (it *oInterp) initPackage(tp *types.Package) {
 		}
 	}
 	saved := it.panicActive
+	initWhy := ""
 	for _, f := range pk.Syntax {
 		for _, d := range f.Decls {
 			fd, ok := d.(*ast.FuncDecl)
@@ -2572,11 +2625,120 @@ func (it *oInterp) initPackage(tp *types.Package) {
 				continue
 			}
 			sub := &oFrame{it: it, info: info, env: &oEnv{vars: map[types.Object]*oval{}}, depth: 1}
-			sub.block(fd.Body.List)
+			ctl := sub.block(fd.Body.List)
 			sub.runDefers()
+			if ctl == oAbort && sub.why != "" && initWhy == "" {
+				initWhy = "init at " + it.p.Position(fd.Pos()) + ": " + sub.why
+			}
 		}
 	}
 	it.panicActive = saved
+	if initWhy != "" {
+		// an initialiser that could not be followed: what it would have stored is unknown, and so is
+		// every package variable it (or a later initialiser) may have touched
+		if os.Getenv("VERIF_TRACE") != "" {
+			fmt.Fprintf(os.Stderr, "TRACE package %s: %s\n", tp.Path(), initWhy)
+		}
+		mut := mutableGlobals(pk)
+		for o, cell := range it.globals {
+			if o.Pkg() == tp && mut[o] {
+				*cell = abortedTop("package variable " + o.Name() + " after an initialiser that could not be interpreted (" + initWhy + ")")
+			}
+		}
+	}
+}
+
+// mutableGlobals: the package-level variables some function of the package may write — assigned
+// (directly, through an index or a field), incremented, address taken, ranged into, handed to
+// delete/clear/copy as the target, or the receiver of a pointer-receiver method call.  A variable
+// that only ever has its initialiser keeps its value whatever the init functions do.
+func mutableGlobals(pk *pkgT) map[types.Object]bool {
+	info := pk.TypesInfo
+	out := map[types.Object]bool{}
+	root := func(e ast.Expr) types.Object {
+		for {
+			switch x := unparen(e).(type) {
+			case *ast.IndexExpr:
+				e = x.X
+			case *ast.SelectorExpr:
+				if _, isPkg := info.Uses[identOf(x.X)].(*types.PkgName); isPkg {
+					return nil
+				}
+				e = x.X
+			case *ast.StarExpr:
+				e = x.X
+			case *ast.SliceExpr:
+				e = x.X
+			case *ast.Ident:
+				o := info.Uses[x]
+				if v, ok := o.(*types.Var); ok && v.Pkg() != nil && v.Parent() == v.Pkg().Scope() {
+					return v
+				}
+				return nil
+			default:
+				return nil
+			}
+		}
+	}
+	mark := func(e ast.Expr) {
+		if o := root(e); o != nil {
+			out[o] = true
+		}
+	}
+	for _, f := range pk.Syntax {
+		for _, d := range f.Decls {
+			fd, ok := d.(*ast.FuncDecl)
+			if !ok || fd.Body == nil {
+				continue
+			}
+			ast.Inspect(fd.Body, func(n ast.Node) bool {
+				switch x := n.(type) {
+				case *ast.AssignStmt:
+					for _, l := range x.Lhs {
+						mark(l)
+					}
+				case *ast.IncDecStmt:
+					mark(x.X)
+				case *ast.UnaryExpr:
+					if x.Op == token.AND {
+						mark(x.X)
+					}
+				case *ast.RangeStmt:
+					if x.Tok == token.ASSIGN {
+						if x.Key != nil {
+							mark(x.Key)
+						}
+						if x.Value != nil {
+							mark(x.Value)
+						}
+					}
+				case *ast.CallExpr:
+					switch builtinName(info, x) {
+					case "delete", "clear", "copy":
+						if len(x.Args) > 0 {
+							mark(x.Args[0])
+						}
+					}
+					if sel, ok := unparen(x.Fun).(*ast.SelectorExpr); ok {
+						if fn, ok := info.Uses[sel.Sel].(*types.Func); ok {
+							if sig, ok := fn.Type().(*types.Signature); ok && sig.Recv() != nil {
+								if _, ptr := sig.Recv().Type().(*types.Pointer); ptr {
+									mark(sel.X)
+								}
+							}
+						}
+					}
+				}
+				return true
+			})
+		}
+	}
+	return out
+}
+
+func identOf(e ast.Expr) *ast.Ident {
+	id, _ := unparen(e).(*ast.Ident)
+	return id
 }
 
 // oExt is an external package-level variable known only by name (binary.BigEndian …).
@@ -2793,6 +2955,10 @@ func (it *oInterp) compareVals(op token.Token, l, r oval) oval {
 func (it *oInterp) coreLib(f *types.Func, recv oval, args []oval) ([]oval, bool) {
 	if out, ok := it.sinkLib(f, recv, args); ok {
 		return out, true
+	}
+	if _, known := hostPureFuncs[f.FullName()]; known {
+		// text functions of the standard library on concrete strings and integers
+		return (&shpModel{errV: oIface{opaque: &oOpaque{name: "error", isError: true}}}).hostPure(f, args)
 	}
 	if out, ok := it.goLib(f, recv, args); ok {
 		return out, true
